@@ -42,7 +42,7 @@ class Color:
 
             self._rgb = parse_color_to_rgb(self.original, background=bg_rgb)
             self._parsed = True
-        except (ValueError, TypeError) as e:
+        except (ValueError, TypeError, OverflowError) as e:
             self._error = str(e)
             self._parsed = True
 
